@@ -474,7 +474,7 @@ def run(prog, rep):
     rep.floor("C10.6", 2)
 
 
-def boolean_valued(e, fn, bitfields):
+def boolean_valued(e, fn, bitfields, _depth=0):
     """Is the expression certainly 0 or 1?"""
     while e is not None and e["k"] == "cast":     # peel casts only: strip_casts would also fold `!!x` into x
         e = e["e"]
@@ -491,9 +491,22 @@ def boolean_valued(e, fn, bitfields):
     if k == "member" and e["field"] in bitfields and bitfields[e["field"]] == 1:
         return True
     if k == "cond":
-        return boolean_valued(e["a"], fn, bitfields) and boolean_valued(e["b"], fn, bitfields)
+        return boolean_valued(e["a"], fn, bitfields, _depth) and boolean_valued(e["b"], fn, bitfields, _depth)
     if k == "call" and e.get("callee") == "__builtin_expect":
-        return boolean_valued(e["args"][0], fn, bitfields)
+        return boolean_valued(e["args"][0], fn, bitfields, _depth)
+    if k == "ref" and e.get("decl") == "local" and _depth < 4:
+        # a local every definition of which is 0/1 (`is_connected = TRUE; ... else is_connected = FALSE;`)
+        defs = []
+        for b, i, n in fn.nodes(elsewhere=True):
+            if n["k"] == "asg" and strip_casts(n["l"]) is not None and strip_casts(n["l"])["k"] == "ref" and strip_casts(n["l"])["name"] == e["name"]:
+                defs.append(n["r"] if n["op"] == "=" else None)
+            elif n["k"] == "decl" and n.get("name") == e["name"] and n.get("init") is not None:
+                defs.append(n["init"])
+            elif n["k"] == "un" and ("++" in n.get("op", "") or "--" in n.get("op", "")) and root_var(n["e"]) == e["name"]:
+                defs.append(None)
+            elif n["k"] == "un" and n.get("op") == "&" and strip_casts(n["e"]) is not None and strip_casts(n["e"])["k"] == "ref" and strip_casts(n["e"])["name"] == e["name"]:
+                defs.append(None)          # its address escapes: anything may be stored
+        return bool(defs) and all(d is not None and boolean_valued(d, fn, bitfields, _depth + 1) for d in defs)
     return False
 
 
